@@ -271,7 +271,11 @@ func (d *Decoder) readMap(dest reflect.Value) error {
 		SetValue(dest, r)
 		return nil
 	case _mapTypedTag:
-		d.readString(_tagRead)
+		// the type takes its slot in the list of types seen (later type
+		// references count it) and may itself be given by reference
+		if _, err := d.readType(); err != nil {
+			return newCodecError("readMap", err)
+		}
 	case _mapUntypedTag:
 		//do nothing
 	default:
